@@ -23,11 +23,13 @@ use crate::vsign::{bus_obs, flip_name};
 struct RecBus {
     inner: Rc<RefCell<VirtualSignBus<'static>>>,
     log: Rc<RefCell<Vec<(Value, Value)>>>,
+    entered: Rc<std::cell::Cell<usize>>, // how often the bridge handed a message to the bus (counted before the bus runs)
 }
 
 impl SignBus for RecBus {
     fn process_message<'a>(&mut self, message: Message<'_>) -> Result<Option<Message<'a>>, Box<dyn Error + Send + Sync>> {
         let mj = j::msg(&message);
+        self.entered.set(self.entered.get() + 1);
         let r = self.inner.borrow_mut().process_message(message)?;
         self.log.borrow_mut().push((mj, j::reply(&r)));
         Ok(r)
@@ -39,6 +41,7 @@ struct Wire {
     odk_st: Rc<RefCell<PortState>>,
     odk: Rc<RefCell<Odk<IPort, RecBus>>>,
     buslog: Rc<RefCell<Vec<(Value, Value)>>>,
+    entered: Rc<std::cell::Cell<usize>>,
     vbus: Rc<RefCell<VirtualSignBus<'static>>>,
     events: Rc<RefCell<Vec<Value>>>,
     n: usize,
@@ -59,6 +62,7 @@ impl Wire {
                 break;
             }
             let log0 = self.buslog.borrow().len();
+            let entered0 = self.entered.get();
             let obs0 = bus_obs(&self.vbus.borrow(), self.n);
             let r = catch(|| self.odk.borrow_mut().process_message());
             let after_len = self.odk_st.borrow().rx.len();
@@ -84,7 +88,7 @@ impl Wire {
             };
             let write_fault = self.odk_st.borrow().io_log.iter().any(|e| e["e"] == "pw" && e["ret"] == -2);
             self.odk_st.borrow_mut().io_log.clear();
-            self.events.borrow_mut().push(json!({"e": "bridge", "line": j::bytes(&line), "res": res, "decodable": decodable, "direct_msg": direct_msg, "write_fault": write_fault,
+            self.events.borrow_mut().push(json!({"e": "bridge", "line": j::bytes(&line), "res": res, "decodable": decodable, "direct_msg": direct_msg, "write_fault": write_fault, "bus_entered": self.entered.get() > entered0,
                 "reply_wire": j::bytes(&reply_wire),
                 "forwarded": fw.iter().map(|x| x.0.clone()).collect::<Vec<_>>(), "replies": fw.iter().map(|x| x.1.clone()).collect::<Vec<_>>(),
                 "wrote": j::bytes(&wrote), "bus_unchanged": bus_obs(&self.vbus.borrow(), self.n) == obs0}));
@@ -130,12 +134,13 @@ pub fn record_c17(a: &Args) -> usize {
         // the wire twin
         let vbus = Rc::new(RefCell::new(VirtualSignBus::new(make_signs(&desc))));
         let buslog = Rc::new(RefCell::new(vec![]));
+        let entered = Rc::new(std::cell::Cell::new(0usize));
         let odk_st = Rc::new(RefCell::new(PortState::new(target_line())));
-        let odk = Rc::new(RefCell::new(Odk::try_new(IPort::new(odk_st.clone()), RecBus { inner: vbus.clone(), log: buslog.clone() }).expect("odk")));
+        let odk = Rc::new(RefCell::new(Odk::try_new(IPort::new(odk_st.clone()), RecBus { inner: vbus.clone(), log: buslog.clone(), entered: entered.clone() }).expect("odk")));
         let ctl_st = Rc::new(RefCell::new(PortState::new(target_line())));
         let ctl_port = IPort::new(ctl_st.clone());
         let events = Rc::new(RefCell::new(vec![]));
-        let wire = Rc::new(Wire { ctl: ctl_st.clone(), odk_st: odk_st.clone(), odk, buslog, vbus: vbus.clone(), events: events.clone(), n });
+        let wire = Rc::new(Wire { ctl: ctl_st.clone(), odk_st: odk_st.clone(), odk, buslog, entered, vbus: vbus.clone(), events: events.clone(), n });
         {
             let w = wire.clone();
             *ctl_port.pump.borrow_mut() = Some(Box::new(move || w.pump()));
